@@ -88,6 +88,11 @@ Definition impute (p : fpol) (ys : list (option Q)) : list (option Q) :=
   | POther => ys
   | _ => let fv := fill_value p (goods ys) in map (fun o => match o with Some v => Some v | None => Some fv end) ys
   end.
+(* the value a failure is given, in the user's (maximisation) terms: CBO(filter_failures="min" | "mean") *)
+Inductive upol := UMin | UMean.
+Definition upol_to_opt (p : upol) : fpol := match p with UMin => PMax | UMean => PMean end.
+Definition fill_user (p : upol) (good : list Q) : Q :=
+  match good with [] => 0 | _ => match p with UMin => qminl good | UMean => qmean good end end.
 (* the lie of a 2-point ask: computed on the imputed list *)
 Definition y_lie (p : fpol) (k : lkind) (ys : list (option Q)) : Q := lie k (goods (impute p ys)).
 
